@@ -90,6 +90,13 @@ func (lf *lenFacts) sameLen(x ssa.Value, b *ssa.BasicBlock, pc *core.PathConds) 
 			if X, done, ok := lf.onePerIteration(y); ok && b != nil && done.Dominates(b) {
 				add(X)
 			}
+		case *ssa.UnOp:
+			// a slice kept in a variable (captured by closures)
+			if al, ok := y.X.(*ssa.Alloc); ok && y.Op == token.MUL {
+				if X, done, ok := lf.memOnePerIteration(al); ok && b != nil && done.Dominates(b) {
+					add(X)
+				}
+			}
 		}
 	}
 	return out
@@ -591,4 +598,246 @@ func (lf *lenFacts) indexParamInRange(fn *ssa.Function, x, idx ssa.Value, b *ssa
 		}
 	}
 	return n > 0
+}
+
+// ---------- slices kept in a variable (captured by closures) ----------
+
+// oneElemAppendTo: v is append(load of addr, one element).
+func oneElemAppendTo(v ssa.Value, addr ssa.Value) bool {
+	call, ok := v.(*ssa.Call)
+	if !ok {
+		return false
+	}
+	b, ok := call.Call.Value.(*ssa.Builtin)
+	if !ok || b.Name() != "append" || len(call.Call.Args) != 2 {
+		return false
+	}
+	ld, ok := call.Call.Args[0].(*ssa.UnOp)
+	if !ok || ld.Op != token.MUL || ld.X != addr {
+		return false
+	}
+	sl, ok := call.Call.Args[1].(*ssa.Slice)
+	if !ok {
+		return false
+	}
+	arr, ok := derefArray(sl.X.Type())
+	return ok && arr.Len() == 1
+}
+
+// closureAppendsOne: g is a closure of parent that captures al; every path through g appends
+// exactly one element to the captured variable, and g stores nothing else into it.
+func closureAppendsOne(g *ssa.Function, al *ssa.Alloc) bool {
+	par := g.Parent()
+	if par == nil || closureEscapes(g) {
+		return false
+	}
+	var fv *ssa.FreeVar
+	for _, b := range par.Blocks {
+		for _, in := range b.Instrs {
+			if mc, ok := in.(*ssa.MakeClosure); ok && mc.Fn == ssa.Value(g) {
+				for bi, bv := range mc.Bindings {
+					if bv == ssa.Value(al) && bi < len(g.FreeVars) {
+						fv = g.FreeVars[bi]
+					}
+				}
+			}
+		}
+	}
+	if fv == nil || fv.Referrers() == nil {
+		return false
+	}
+	ev := map[*ssa.BasicBlock]int{}
+	for _, r := range *fv.Referrers() {
+		switch y := r.(type) {
+		case *ssa.Store:
+			if y.Addr != ssa.Value(fv) || !oneElemAppendTo(y.Val, fv) {
+				return false
+			}
+			ev[y.Block()]++
+		case *ssa.UnOp, *ssa.DebugRef:
+		default:
+			return false
+		}
+	}
+	// exactly one on every path: one event block, executed once, on every path to a return
+	if len(ev) != 1 {
+		return false
+	}
+	for b, n := range ev {
+		if n != 1 || !blockOnEveryPath(g, b) {
+			return false
+		}
+		for _, l := range loopsOf(g) {
+			if l.contains(b) {
+				return false
+			}
+		}
+	}
+	return true
+}
+
+// memOnePerIteration: the slice variable al starts empty and receives exactly one element on
+// every path through the body of a complete range over X - by an append in the function or by
+// a call of a closure that appends exactly one. Returns X and the block after the loop.
+func (lf *lenFacts) memOnePerIteration(al *ssa.Alloc) (ssa.Value, *ssa.BasicBlock, bool) {
+	fn := al.Parent()
+	if fn == nil || al.Referrers() == nil {
+		return nil, nil, false
+	}
+	if _, ok := derefT(al.Type()).Underlying().(*types.Slice); !ok {
+		return nil, nil, false
+	}
+	ev := map[*ssa.BasicBlock]int{}
+	var inits []*ssa.Store
+	closures := map[*ssa.Function]bool{}
+	for _, r := range *al.Referrers() {
+		switch y := r.(type) {
+		case *ssa.Store:
+			if y.Addr != ssa.Value(al) {
+				return nil, nil, false
+			}
+			if oneElemAppendTo(y.Val, al) {
+				ev[y.Block()]++
+			} else {
+				inits = append(inits, y)
+			}
+		case *ssa.MakeClosure:
+			if g, ok := y.Fn.(*ssa.Function); ok {
+				closures[g] = true
+			}
+		case *ssa.UnOp, *ssa.DebugRef:
+		default:
+			return nil, nil, false
+		}
+	}
+	for g := range closures {
+		// a closure that only reads the variable is harmless; one that writes must append one
+		writes := false
+		for bi, fv := range g.FreeVars {
+			_ = bi
+			if fv.Referrers() == nil {
+				continue
+			}
+			for _, b := range fn.Blocks {
+				for _, in := range b.Instrs {
+					if mc, ok := in.(*ssa.MakeClosure); ok && mc.Fn == ssa.Value(g) && bi < len(mc.Bindings) && mc.Bindings[bi] == ssa.Value(al) {
+						for _, r := range *fv.Referrers() {
+							if st, ok := r.(*ssa.Store); ok && st.Addr == ssa.Value(fv) {
+								writes = true
+							}
+						}
+					}
+				}
+			}
+		}
+		if !writes {
+			continue
+		}
+		if !closureAppendsOne(g, al) {
+			return nil, nil, false
+		}
+		for _, ci := range core.Calls(fn) {
+			if ci.Common().StaticCallee() == g {
+				if _, isCall := ci.(*ssa.Call); !isCall {
+					return nil, nil, false
+				}
+				ev[ci.Block()]++
+			}
+		}
+	}
+	if len(inits) != 1 || len(ev) == 0 {
+		return nil, nil, false
+	}
+	switch iv := inits[0].Val.(type) {
+	case *ssa.Const:
+		if !iv.IsNil() {
+			return nil, nil, false
+		}
+	case *ssa.MakeSlice:
+		if k, ok := core.ConstInt(iv.Len); !ok || k != 0 {
+			return nil, nil, false
+		}
+	case *ssa.Slice:
+		arr, isArr := derefArray(iv.X.Type())
+		hi, hasHi := int64(-1), false
+		if iv.High != nil {
+			hi, hasHi = core.ConstInt(iv.High)
+		}
+		if !isArr || iv.Low != nil || !((hasHi && hi == 0) || arr.Len() == 0) {
+			return nil, nil, false
+		}
+	default:
+		return nil, nil, false
+	}
+	// the loop that contains every event
+	for _, l := range loopsOf(fn) {
+		iff := l.head.Instrs[len(l.head.Instrs)-1].(*ssa.If)
+		cond, ok := iff.Cond.(*ssa.BinOp)
+		if !ok || cond.Op != token.LSS || !unitCounter(cond.X, l.head) {
+			continue
+		}
+		lc, ok := core.Strip(cond.Y).(*ssa.Call)
+		if !ok || !isLenCall(lc) {
+			continue
+		}
+		all := true
+		for b := range ev {
+			if b == l.head || !l.contains(b) {
+				all = false
+			}
+		}
+		if !all || l.contains(inits[0].Block()) || !inits[0].Block().Dominates(l.head) || len(l.done.Preds) != 1 {
+			continue
+		}
+		// no exit from the body rejoins the code after the loop
+		okExits := true
+		for _, e := range l.earlyExits(fn) {
+			if core.ReachableAvoiding(e[1], l.done, nil) {
+				okExits = false
+			}
+		}
+		if !okExits {
+			continue
+		}
+		// count the events along every path of the body
+		in := map[*ssa.BasicBlock]int{l.body: 0}
+		work := []*ssa.BasicBlock{l.body}
+		good := true
+		for len(work) > 0 && good {
+			b := work[0]
+			work = work[1:]
+			out := in[b] + ev[b]
+			for _, s := range b.Succs {
+				if s == l.head {
+					if !(out == 1 || (out == 0 && lf.c.closedSumNoMatchEdge(b, l.head))) {
+						good = false
+					}
+					continue
+				}
+				if !l.contains(s) {
+					continue
+				}
+				if s.Dominates(b) {
+					good = false // an inner loop
+					continue
+				}
+				if prev, seen := in[s]; seen {
+					if prev != out {
+						// a no-match edge of an exhaustive type switch joins with 0
+						if out == 0 && lf.c.closedSumNoMatchEdge(b, s) {
+							continue
+						}
+						good = false
+					}
+					continue
+				}
+				in[s] = out
+				work = append(work, s)
+			}
+		}
+		if good {
+			return lc.Call.Args[0], l.done, true
+		}
+	}
+	return nil, nil, false
 }
